@@ -263,6 +263,13 @@ func (p *Proxy) handleLoop(conn net.Conn) {
 			log.Debugf("martian: closing connection: %v", conn.RemoteAddr())
 			return
 		}
+
+		// A hijacked connection belongs to the hijacker: stop reading requests
+		// from it and close it now that the modifier has returned.
+		if s.Hijacked() {
+			log.Debugf("martian: connection hijacked, leaving handler loop: %v", conn.RemoteAddr())
+			return
+		}
 	}
 }
 
